@@ -1000,7 +1000,13 @@ pub(crate) fn eval_query(ctx: &Context, expr: &Query) -> Result<QueryReply, Quer
                     )))
                 }
             };
-            let top = top.with_timezone(&FixedOffset::east_opt(off as i32).unwrap());
+            let offset = <i32 as std::convert::TryFrom<i64>>::try_from(off)
+                .ok()
+                .and_then(FixedOffset::east_opt)
+                .ok_or_else(|| {
+                    QueryError::generic(format!("Timezone offset {:+} is out of range", off))
+                })?;
+            let top = top.with_timezone(&offset);
             Ok(QueryReply::Date(DateReply::new(ctx, top)))
         }
         Query::Convert(ref top, Conversion::Timezone(tz), None, Digits::Default) => {
